@@ -86,6 +86,34 @@ def corr(ctx):
             stats['disagreements'].append({'what': '_try_remove_group on a pico group: implementation, model and "kept unchanged" are not all equal',
                                            'input': jsonable(['try_remove_group', attrib, kids, push]), 'impl': jsonable(impl), 'model': jsonable(mm)})
             if len(stats['disagreements']) >= 10: break
+    # _add_to_defs on id lists, and the defs order of a re-converted pico document (gradients only, all in use)
+    host = SVG.fromstring('<svg xmlns="http://www.w3.org/2000/svg"/>')
+    IDS = ['a', 'b', 'c', 'a_0', 'b_1', 'grad1', 'grad10', 'grad2', 'A', 'Z', 'a.b', 'ab', '']
+    G = lambda i: f'<linearGradient id="{i}" x1="0" y1="0" x2="1" y2="0"><stop offset="0" stop-color="red"/><stop offset="1" stop-color="blue"/></linearGradient>'
+    for i in range(ctx.n(300, 3000)):
+        l = rng.sample(IDS[:-1], rng.randint(0, 6)); new = rng.choice([x for x in IDS[:-1] if x not in l])
+        defs = etree.fromstring('<defs xmlns="http://www.w3.org/2000/svg">' + ''.join(f'<linearGradient id="{x}"/>' for x in l) + '</defs>')
+        el = etree.fromstring(f'<linearGradient xmlns="http://www.w3.org/2000/svg" id="{new}"/>')
+        host._add_to_defs(defs, el)
+        impl = [e.get('id') for e in defs]
+        mod = m.call('add_to_defs', [l, new])
+        stats['evaluations'] += 1
+        stats['distribution']['add_to_defs'] = stats['distribution'].get('add_to_defs', 0) + 1
+        if len(l) >= 2: stats['nontrivial'].add('defs:' + json.dumps([l, new]))
+        if impl != mod:
+            stats['disagreements'].append({'what': '_add_to_defs: model and implementation differ', 'input': jsonable(['add_to_defs', l, new]), 'impl': impl, 'model': jsonable(mod)})
+            if len(stats['disagreements']) >= 10: return stats
+        if i % 5 == 0 and l:
+            doc = '<svg xmlns="http://www.w3.org/2000/svg" viewBox="0 0 40 40"><defs>' + ''.join(G(x) for x in l) + '</defs>' + \
+                  ''.join(f'<path fill="url(#{x})" d="M{k},0 L{k + 1},0 L{k + 1},3 Z"/>' for k, x in enumerate(l)) + '</svg>'
+            try: impl = defs_ids(SVG.fromstring(doc).topicosvg().tostring())
+            except Exception as ex: impl = repr(ex)[:100]
+            mod = m.call('reconvert', l)
+            stats['evaluations'] += 1
+            stats['distribution']['reconvert'] = stats['distribution'].get('reconvert', 0) + 1
+            if impl != mod:
+                stats['disagreements'].append({'what': 'defs order after converting a pico document: model and implementation differ', 'input': jsonable(['reconvert', l]), 'impl': jsonable(impl), 'model': jsonable(mod)})
+                if len(stats['disagreements']) >= 10: return stats
     return stats
 
 # ---------------------------------------------------------------- end-to-end judge
